@@ -251,6 +251,46 @@ fn copy_dir(src: &std::path::Path, dst: &std::path::Path) -> std::io::Result<()>
     Ok(())
 }
 
+/// compact form of the structured big inputs: `DQ <shape> <n>` stands for `Q <text of that shape and size>`
+fn deep_text(shape: &str, n: usize) -> String {
+    match shape {
+        "parens" => format!("SELECT {}1{}", "(".repeat(n), ")".repeat(n)),
+        "not" => format!("SELECT {}TRUE", "NOT ".repeat(n)),
+        "neg" => format!("SELECT {}1", "- ".repeat(n)),
+        "plus" => format!("SELECT 1{}", " + 1".repeat(n)),
+        "concat" => format!("SELECT 'a'{}", " || 'a'".repeat(n)),
+        "comments" => format!("SELECT {}1", "--c\n".repeat(n)),
+        "bcomments" => format!("{}SELECT 1", "/**/".repeat(n)),
+        "or" => format!("SELECT * FROM t2 WHERE {}", (0..n).map(|i| format!("x = {}", i)).collect::<Vec<_>>().join(" OR ")),
+        "and" => format!("SELECT * FROM t2 WHERE {}", (0..n).map(|i| format!("x <> {}", i)).collect::<Vec<_>>().join(" AND ")),
+        "case" => format!("SELECT {}1{}", "CASE WHEN TRUE THEN ".repeat(n), " END".repeat(n)),
+        "subq" => format!("SELECT * FROM {}t2{}", "(SELECT * FROM ".repeat(n), ") AS s".repeat(n)),
+        "scalarsubq" => format!("SELECT {}1{}", "(SELECT ".repeat(n), ")".repeat(n)),
+        "inlist" => format!("SELECT * FROM t2 WHERE x IN ({})", (0..n).map(|i| i.to_string()).collect::<Vec<_>>().join(", ")),
+        "cols" => format!("SELECT {} FROM t2", (0..n).map(|_| "x").collect::<Vec<_>>().join(", ")),
+        "values" => format!("INSERT INTO t2 (id, x, y) VALUES {}", (0..n).map(|i| format!("({}, 1, 'v')", 1000 + i)).collect::<Vec<_>>().join(", ")),
+        "func" => format!("SELECT {}1{}", "ABS(".repeat(n), ")".repeat(n)),
+        "brackets" => format!("SELECT {}1{}", "[".repeat(n), "]".repeat(n)),
+        "union" => format!("SELECT 1{}", " UNION ALL SELECT 1".repeat(n)),
+        "joins" => format!("SELECT * FROM t2{}", (0..n).map(|i| format!(" JOIN t2 AS j{} ON j{}.id = t2.id", i, i)).collect::<String>()),
+        "longstr" => format!("SELECT '{}'", "é".repeat(n)),
+        "longident" => format!("SELECT {} FROM t2", "x".repeat(n)),
+        "digits" => format!("SELECT {}", "9".repeat(n)),
+        _ => "SELECT 1".to_string(),
+    }
+}
+const DEEP_SHAPES: [&str; 23] = ["parens", "not", "neg", "plus", "concat", "comments", "bcomments", "or", "and", "case", "subq", "scalarsubq", "inlist", "cols",
+    "values", "func", "brackets", "union", "joins", "longstr", "longident", "digits", "other"];
+fn expand_op(op: &str) -> String {
+    if let Some(r) = op.strip_prefix("DQ ") {
+        let mut it = r.split(' ');
+        let shape = it.next().unwrap_or("");
+        let n: usize = it.next().and_then(|x| x.parse().ok()).unwrap_or(1);
+        return format!("Q {}", deep_text(shape, n.min(2_000_000)));
+    }
+    op.to_string()
+}
+
 /// run one api case (already unescaped ops) on a fresh copy of the template database.
 /// Returns (calls that returned Ok, calls that returned Err).
 fn run_api_ops(dir: &std::path::Path, ops: &[String]) -> (u32, u32) {
@@ -259,6 +299,7 @@ fn run_api_ops(dir: &std::path::Path, ops: &[String]) -> (u32, u32) {
     let mut db: Option<Database> = Database::open(dir).ok();
     let mut tally = |r: bool| { if r { ok += 1 } else { er += 1 } };
     for op in ops {
+        let op = &expand_op(op);
         let (code, rest) = match op.find(' ') { Some(i) => (&op[..i], &op[i + 1..]), None => (op.as_str(), "") };
         if code == "R" {
             db = None;
@@ -468,18 +509,34 @@ fn msg_class(m: &str) -> u32 {
     else if m.contains("unreachable") || m.contains("not implemented") || m.contains("not yet implemented") || m.contains("explicit panic") { 9 }
     else { 0 }
 }
-/// features of the SQL text of a case: [max bracket nesting, longest run of consecutive comments,
-/// non-ASCII inside a quoted string, longest operator chain (count of binary operator characters outside strings)]
+/// features of a case (see Corr/C22.v `Api`): [f0 max bracket / prefix-keyword nesting, f1 longest run of consecutive
+/// comments, f2 non-ASCII inside a quoted string or text parameter, f3 chain length (binary-operator characters and
+/// AND/OR/UNION/JOIN keywords outside strings), f4 Decimal parameter with scale >= 39, f5 INSERT / UPDATE present,
+/// f6 function mask (1 LPAD/RPAD/REPEAT/SPACE, 2 DATE_FORMAT/TIME_FORMAT/STRFTIME), f7 a string literal that is exactly '"']
 fn features(ops: &[String]) -> Vec<u64> {
-    let mut nest = 0u64; let mut run = 0u64; let mut nonascii = 0u64; let mut chain = 0u64;
+    let (mut nest, mut run, mut nonascii, mut chain, mut dec, mut wr, mut fmask, mut jq) = (0u64, 0u64, 0u64, 0u64, 0u64, 0u64, 0u64, 0u64);
     for op in ops {
-        let b = op.as_bytes();
+        let op = &expand_op(op);
+        let code = op.split(' ').next().unwrap_or("");
+        let mut sql: &str = op.get(code.len()..).unwrap_or("");
+        if code == "X" || code == "PB" || code == "PQ" {
+            if let Some(i) = sql.find(" | ") {
+                for p in sql[..i].split(',').map(|x| x.trim()) {
+                    if let Some(r) = p.strip_prefix('C') { if r.split(':').nth(1).and_then(|x| x.parse::<i64>().ok()).unwrap_or(0) >= 39 { dec = 1; } }
+                    if let Some(r) = p.strip_prefix('T') { if unhex(r).iter().any(|b| *b >= 128) { nonascii = 1; } }
+                }
+                sql = &sql[i + 3..];
+            }
+        }
+        let b = sql.as_bytes();
         let (mut d, mut i, mut r, mut opsn) = (0u64, 0usize, 0u64, 0u64);
         while i < b.len() {
             let c = b[i];
             if c == b'\'' { // string literal
+                let st = i + 1;
                 i += 1;
                 while i < b.len() { if b[i] == b'\'' { if i + 1 < b.len() && b[i + 1] == b'\'' { i += 1; } else { break; } } else if b[i] >= 128 { nonascii = 1; } i += 1; }
+                if i == st + 1 && b.get(st) == Some(&b'"') { jq = 1; }
                 r = 0;
             } else if c == b'-' && i + 1 < b.len() && b[i + 1] == b'-' {
                 while i < b.len() && b[i] != b'\n' { i += 1; }
@@ -496,13 +553,16 @@ fn features(ops: &[String]) -> Vec<u64> {
             }
             i += 1;
         }
-        chain = chain.max(opsn);
-        // keyword nesting (NOT NOT NOT ..., CASE WHEN ..., unary minus chains) also recurses in the parser
-        let up = op.to_ascii_uppercase();
+        let up = sql.to_ascii_uppercase();
         let kw = up.matches("NOT ").count().max(up.matches("CASE ").count()).max(up.matches("SELECT ").count()) as u64;
         nest = nest.max(kw);
+        opsn += (up.matches(" AND ").count() + up.matches(" OR ").count() + up.matches(" UNION ").count() + up.matches(" JOIN ").count()) as u64;
+        chain = chain.max(opsn);
+        if up.contains("INSERT") || up.contains("UPDATE") { wr = 1; }
+        if up.contains("LPAD") || up.contains("RPAD") || up.contains("REPEAT") || up.contains("SPACE") { fmask |= 1; }
+        if up.contains("DATE_FORMAT") || up.contains("TIME_FORMAT") || up.contains("STRFTIME") { fmask |= 2; }
     }
-    vec![nest, run, nonascii, chain]
+    vec![nest, run, nonascii, chain, dec, wr, fmask, jq]
 }
 fn api_term(kind_code: u32, ops: &[String], o: &ApiOut) -> String {
     let f: Vec<String> = features(ops).iter().map(|x| x.to_string()).collect();
@@ -775,20 +835,17 @@ fn gen_api_cases(rng: &mut Rng, n: usize) -> Vec<(String, &'static str)> {
     }
     v
 }
-/// structured big inputs (depth regimes)
+/// structured big inputs (depth / size regimes), in the compact `DQ shape n` form
 fn deep_cases(thorough: bool) -> Vec<(String, &'static str)> {
     let mut v = vec![];
-    let ns: &[usize] = if thorough { &[10, 50, 100, 200, 400] } else { &[10, 50, 100, 200] };
-    for &n in ns {
-        let mut add = |op: String| v.push((join_ops(&[op]), "api_deep"));
-        add(format!("Q SELECT {}1{}", "(".repeat(n), ")".repeat(n)));
-        add(format!("Q SELECT {} TRUE", "NOT ".repeat(n)));
-        add(format!("Q SELECT {}1", "- ".repeat(n)));
-        add(format!("Q SELECT 1{}", " + 1".repeat(n)));
-        add(format!("Q SELECT {}1", "--c\n".repeat(n)));
-        add(format!("Q {}SELECT 1", "/**/".repeat(n)));
-        add(format!("Q SELECT * FROM t2 WHERE {}", (0..n).map(|i| format!("x = {}", i)).collect::<Vec<_>>().join(" OR ")));
+    let ns: &[usize] = if thorough { &[1, 10, 50, 100, 200, 400] } else { &[10, 100, 200] };
+    for shape in DEEP_SHAPES.iter().take(22) {
+        for &n in ns { v.push((format!("DQ {} {}", shape, n), "api_deep")); }
     }
+    // the regimes of the recorded stack-overflow findings (kept few: each costs a worker restart)
+    v.push(("DQ parens 5000".to_string(), "api_deep"));
+    v.push(("DQ comments 200000".to_string(), "api_deep"));
+    if thorough { for s in ["not", "neg", "case", "scalarsubq", "func", "bcomments"] { v.push((format!("DQ {} 100000", s), "api_deep")); } }
     v
 }
 
